@@ -894,7 +894,7 @@ def run(ctx):
             plan = [(80, 30, 1)]
             path_every, display_every, pulled_every = 11, 41, 53
         else:
-            plan = [(60, 0, 1), (500, 40, 2)]
+            plan = [(50, 0, 1), (360, 40, 2)]
             path_every, display_every, pulled_every = 3, 17, 19
         for nbases, per_base, sb in plan:
             cases = gen_cases(ctx, nbases, per_base, sb)
